@@ -39,6 +39,9 @@ type Case struct {
 	Kind      string // malformation kind
 	Pick, Arg int
 	Bytes     string // Mode == raw: the Data bytes
+	// sweep mode: the template is message number SweepTemplate-1 of the in-order run and is injected as soon as the
+	// victim has reached (or passed) the round before it; the malformation is applied to node SweepNode
+	SweepTemplate, SweepNode int
 }
 
 var headerKinds = []string{"to-empty", "to-other", "to-unknown", "to-self-from-self", "from-unknown", "from-victim", "round-0", "round-minus1", "round-plus1", "round-final+1", "round-65535",
@@ -125,6 +128,57 @@ func run(c Case) *pbt.Fail {
 	victim := n.Parties[c.Victim%len(n.Parties)]
 	injected := false
 	for len(n.Pending) > 0 || !injected {
+		if !injected && c.SweepTemplate > 0 {
+			// wait until the genuine counterpart of the template is in flight to the victim, then replace it
+			tpl := msgs[(c.SweepTemplate-1)%len(msgs)]
+			at := -1
+			for i, d := range n.Pending {
+				if d.To == victim.Name && d.M.RoundNumber == tpl.RoundNumber && d.M.Broadcast == tpl.Broadcast && d.M.From == tpl.From {
+					at = i
+				}
+			}
+			if at < 0 && len(n.Pending) > 0 {
+				if err := n.Step(0, false); err != nil {
+					return failOf(err, "before-injection")
+				}
+				continue
+			}
+			injected = true
+			if at < 0 {
+				lastWhat = "never-in-flight|not-applicable"
+				break
+			}
+			m := sim.Clone(n.Pending[at].M)
+			n.Pending = append(n.Pending[:at:at], n.Pending[at+1:]...)
+			root, err := mut.Decode(m.Data)
+			if err != nil {
+				break
+			}
+			path, ok := mut.Shape(root, c.SweepNode, c.Kind, c.Arg)
+			if !ok {
+				lastWhat = "sweep|not-applicable"
+				n.Inject(string(m.From), m, victim.Name, false)
+				continue
+			}
+			m.Data = mut.Encode(root)
+			lastWhat = fmt.Sprintf("r%d/bc=%v|%s|%s", m.RoundNumber, m.Broadcast, mut.Generic(path), c.Kind)
+			n.Tape.Use(victim.Name)
+			perr := guardCall("CanAccept", func() { _ = victim.H.CanAccept(m) })
+			if perr == nil {
+				var out []*sim.Msg
+				out, perr = n.Call(victim, "Accept", func() { victim.H.Accept(m) })
+				for _, o := range out {
+					n.Post(victim, o)
+				}
+			}
+			if perr != nil {
+				return failOf(perr, "malformed:"+lastWhat)
+			}
+			if f := legal(victim, "after the malformed message ("+lastWhat+")"); f != nil {
+				return f
+			}
+			continue
+		}
 		if !injected && (n.Steps >= c.At || len(n.Pending) == 0) {
 			injected = true
 			// prefer a message that is really in flight to the victim (it replaces the genuine one, so it is certain to
@@ -383,4 +437,65 @@ func TestDoerner(t *testing.T) {
 	rapid.Check(t, func(rt *rapid.T) {
 		prop.One(rt, gen(rt, []string{proto.DoernerKeygen, proto.DoernerRefresh, proto.DoernerSign, proto.DoernerSign}))
 	})
+}
+
+// TestSweep (thorough) visits EVERY node of EVERY message kind of every protocol with the malformations that
+// most often expose a missing check (absent, null, wrong container, empty), one run per (node, malformation).
+func TestSweep(t *testing.T) {
+	rec := ev.Get()
+	kinds := []string{"absent", "null", "empty-map", "empty-bytes", "type-int", "empty-array"}
+	i := 0
+	for _, p := range append(append([]string{}, cheapProtos...), cmpProtos...) {
+		devs := []string{""}
+		if p == proto.CMPPresign || p == proto.CMPPresignFull {
+			devs = []string{"", "gamma-for-delta", "x-for-chi"}
+		}
+		for _, dev := range devs {
+			c := Case{Setup: advrun.Setup{Proto: p, N: 2, T: 1, Seed: 1}, Deviation: dev, Mode: "shape"}
+			msgs, err := baseline(c)
+			if err != nil {
+				t.Fatalf("%s: %v", p, err)
+			}
+			seen := map[string]bool{}
+			for ti, m := range msgs {
+				if m.RoundNumber == 0 {
+					continue
+				}
+				root, err := mut.Decode(m.Data)
+				if err != nil {
+					continue
+				}
+				for ni, r := range mut.Walk(root) {
+					key := fmt.Sprintf("%d/%v/%s", m.RoundNumber, m.Broadcast, mut.Generic(r.Path))
+					if seen[key] {
+						continue
+					}
+					seen[key] = true
+					for _, k := range kinds {
+						i++
+						if !rec.Mine(i) {
+							continue
+						}
+						cc := c
+						cc.Kind, cc.SweepTemplate, cc.SweepNode = k, ti+1, ni
+						// the victim is whoever the template is addressed to
+						for vi, id := range sessionOrder(c) {
+							if m.IsFor(id) {
+								cc.Victim = vi
+							}
+						}
+						prop.One(t, cc)
+					}
+				}
+			}
+		}
+	}
+}
+
+func sessionOrder(c Case) []party.ID {
+	sess, _, err := advrun.Build(c.Setup)
+	if err != nil {
+		return nil
+	}
+	return sess.Order()
 }
